@@ -1,7 +1,112 @@
-(* STUB: Spec layer for tpm2 -- to be written *)
-From Coq Require Import NArith List.
-From ACPI Require Import Lib.Bytes Lib.Sx Spec.Layout.
+(* Spec layer for the TCG ACPI tables (TCG ACPI Specification 1.2/1.3: TCPA client, TCPA server, TPM2),
+   written from SPEC_NOTES.md A.1.
+   Case vocabulary (shared with the harness):
+   component 25 TpmClient1_2
+     ctor  (oem6 tbl8 orev laml lasa)       TpmClient1_2::new(.., log_area_min_len: u32, log_area_start_addr: u64)
+     ops   none (observations only)
+   component 24 TpmServer1_2  (every op = one builder call `t = t.builder(..)`, event n0)
+     ctor  (oem6 tbl8 orev)                 TpmServer1_2::new(oem_id, oem_table_id, oem_revision)
+     ops   (1 laml lasa)                    log_area(u64, u64)
+           (2)                              active_low()
+           (3)                              edge_triggered()
+           (4 gpe)                          sci_gpe(u8)
+           (5 gsi)                          gsi(u32)
+           (6)                              bus_is_pnp()
+           (7 seg bus dev fn)               pci_sbdf(u8, u8, u8, u8)   (asserts device < 32, function < 8: beyond is outside the domain)
+           (8 space width offset access addr)   base_addr(GAS::new(..))
+           (9 space width offset access addr)   config_addr(GAS::new(..))
+           GAS: space = the AddressSpace id itself (0..0xB, 0x7F), access = 0 undefined 1 byte 2 word 3 dword 4 qword
+   component 23 Tpm2
+     ctor  (oem6 tbl8 orev class base start_method)   Tpm2::new(.., PlatformClass, crb_or_fifo_base: u64, StartMethod)
+           class 0 Client | 1 Server; start_method by its value: 1 LegacyUse 2 AcpiStart 6 Mmio 7 Crb 8 CrbAndAcpiStart
+           11 CrbAndSmcHvc 12 I2cFifo
+     ops   (1 laml lasa)                    set_log_area(min_len: u32, base_addr: u64), event n0; allowed once *)
+From Coq Require Import NArith List Bool.
+From ACPI Require Import Lib.Bytes Lib.Sx Spec.Layout Spec.FixedS.
 Import ListNotations.
-Definition tpm2_spec : tspec := null_spec.
-Definition tpmserver_spec : tspec := null_spec.
-Definition tpmclient_spec : tspec := null_spec.
+Open Scope N_scope.
+
+Definition TCPA_SIG : list N := [84; 67; 80; 65].
+
+(* ---- TCPA client (50) ---- *)
+Definition tpmclient_ref (ctor : sx) : option (list N) :=
+  match ctor with
+  | SL [o; t; r; SA laml; SA lasa] =>
+      match sx_hdr_args o t r, lay_at 36 14 [L 36 2 0; L 38 4 laml; L 42 8 lasa] with
+      | Some h, Some body => Some (ref_table TCPA_SIG 2 h body)
+      | _, _ => None
+      end
+  | _ => None
+  end.
+
+Definition tpmclient_spec : tspec := fixed_spec (ctor_only tpmclient_ref).
+
+(* ---- TCPA server (100) ---- *)
+Definition sbdf_in_range (o : sx) : bool :=
+  match o with
+  | SL [SA 7; _; _; SA dev; SA fn] => (dev <? 32) && (fn <? 8)
+  | _ => true
+  end.
+
+Definition tpmserver_body (ops : list sx) : option (list N) :=
+  let dflags := bit (was_called 7 ops) 1 + bit (was_called 6 ops) 2 + bit (was_called 9 ops) 4 in
+  let iflags := bit (was_called 3 ops) 1 + bit (was_called 2 ops) 2 + bit (was_called 4 ops) 4 + bit (was_called 5 ops) 8 in
+  lay_at 36 64
+    [L 36 2 1;                                          (* PlatformClass: server *)
+     L 38 2 0;
+     L 40 8 (argn 1 0 ops); L 48 8 (argn 1 1 ops);      (* LAML, LASA *)
+     L 56 1 1; L 57 1 2;                                (* SpecRevision (crate bytes 01 02) *)
+     L 58 1 dflags; L 59 1 iflags;
+     L 60 1 (argn 4 0 ops);                             (* GPE *)
+     L 61 3 0;
+     L 64 4 (argn 5 0 ops);                             (* GSI *)
+     L 68 1 (argn 8 0 ops); L 69 1 (argn 8 1 ops); L 70 1 (argn 8 2 ops); L 71 1 (argn 8 3 ops); L 72 8 (argn 8 4 ops);
+     L 80 4 0;
+     L 84 1 (argn 9 0 ops); L 85 1 (argn 9 1 ops); L 86 1 (argn 9 2 ops); L 87 1 (argn 9 3 ops); L 88 8 (argn 9 4 ops);
+     L 96 1 (argn 7 0 ops); L 97 1 (argn 7 1 ops); L 98 1 (argn 7 2 ops); L 99 1 (argn 7 3 ops)].
+
+Definition tpmserver_op_ok (o : sx) : bool :=
+  match o with
+  | SL [SA 1; SA _; SA _] | SL [SA 2] | SL [SA 3] | SL [SA 4; SA _] | SL [SA 5; SA _] | SL [SA 6]
+  | SL [SA 7; SA _; SA _; SA _; SA _]
+  | SL [SA 8; SA _; SA _; SA _; SA _; SA _] | SL [SA 9; SA _; SA _; SA _; SA _; SA _] => sbdf_in_range o
+  | _ => false
+  end.
+
+Definition tpmserver_ref (ctor : sx) (ops : list sx) : option (list N) :=
+  match ctor with
+  | SL [o; t; r] =>
+      if forallb tpmserver_op_ok ops then
+        match sx_hdr_args o t r, tpmserver_body ops with
+        | Some h, Some body => Some (ref_table TCPA_SIG 2 h body)
+        | _, _ => None
+        end
+      else None
+  | _ => None
+  end.
+
+Definition tpmserver_spec : tspec := fixed_spec tpmserver_ref.
+
+(* ---- TPM2 (52 | 76) ---- *)
+Definition tpm2_ref (ctor : sx) (ops : list sx) : option (list N) :=
+  match ctor with
+  | SL [o; t; r; SA cls; SA base; SA sm] =>
+      let cls_ok := cls <? 2 in
+      let sm_ok := existsb (N.eqb sm) [1; 2; 6; 7; 8; 11; 12] in
+      let fixed := [L 36 2 cls; L 38 2 0; L 40 8 base; L 48 4 sm] in
+      let body :=
+        match ops with
+        | [] => lay_at 36 16 fixed
+        | [SL [SA 1; SA laml; SA lasa]] => lay_at 36 40 (fixed ++ [L 52 12 0; L 64 4 laml; L 68 8 lasa])
+        | _ => None                                    (* set_log_area may be called once *)
+        end in
+      if cls_ok && sm_ok then
+        match sx_hdr_args o t r, body with
+        | Some h, Some b => Some (ref_table [84; 80; 77; 50] 1 h b)      (* "TPM2", revision 1 (crate) *)
+        | _, _ => None
+        end
+      else None
+  | _ => None
+  end.
+
+Definition tpm2_spec : tspec := fixed_spec tpm2_ref.
